@@ -218,6 +218,45 @@ def run(prog, rep, tier):
         rep.violation(R94, bd.path + "|distinct", "JournalReader: renderings %s are dispatched identically (same renderer and constants)" % sorted(dup))
     rep.floor(R94, 8)
 
+    # ------------------------------------------------------------ R9.7 export rendering emits the stored item
+    # `--journal-output=export` prints every FIELD=value item exactly as libsystemd returns it.  In
+    # next_export's field loop every non-constant write into the output buffer must be the payload of
+    # the enumerate call itself, not something computed from it (sub-slices, trimmed copies).
+    R97 = rep.rule("R9.7", "export rendering writes each enumerated data item unmodified")
+    xb = prog.body(JR + "::next_export") if "JR" in globals() else prog.body("s4lib::readers::journalreader::JournalReader::next_export")
+    enum = [c for c in xb.live_calls() if c.d.endswith("::call_sd_journal_enumerate_available_data")]
+    if len(enum) != 1:
+        raise CheckerError("next_export: %d enumerate calls" % len(enum))
+    en = enum[0]
+    hs = [h for (tl, h) in xb.back_edges() if en.bb in xb.loop_blocks(h)]
+    if not hs:
+        raise CheckerError("next_export: enumerate call is not in a loop")
+    Lx = xb.loop_blocks(min(hs, key=lambda h: len(xb.loop_blocks(h))))
+    nw = 0
+    direct = 0
+    for c in xb.live_calls():
+        if c.bb not in Lx:
+            continue
+        nm = (c.o or c.d).split("::")[-1]
+        if nm not in ("push_str", "extend_from_slice", "push", "extend", "append", "write", "write_all", "push_byte", "push_char"):
+            continue
+        if len(c.args) < 2 or c.args[1][0] == "k":
+            continue
+        os_ = xb.origins(c.args[1], through_calls=("::deref", "::as_ref", "::as_bytes", "::as_slice", "::borrow"))
+        if all(o[0] == "const" for o in os_):
+            continue
+        nw += 1
+        ok = bool(os_) and all(o[0] == "call" and o[1] == en.bb for o in os_)
+        inst = "%s|field-write" % xb.path
+        rep.examined(R97, inst, sample={"call": nm, "line": c.line, "source_is_enumerated_item": ok, "origins": sorted(str(o[:3]) for o in os_)[:3]})
+        if ok:
+            direct += 1
+        else:
+            rep.violation(R97, inst, "next_export: the field loop writes bytes that are computed from the enumerated item (%s at line %d, from %s) instead of the item itself; "
+                          "the exported FIELD=value can then differ from the stored one (journalctl -o export prints it unmodified)" % (nm, c.line, sorted(str(o[2]).split("::")[-1] if o[0] == "call" else o[0] for o in os_)[:2]))
+    if nw == 0:
+        raise CheckerError("next_export: no data write in the field loop")
+
     # ------------------------------------------------------------ R9.6 (lift: C05 rules at the extraction sites)
     # "A compressed or archived journal file prints the same as the plain file": the file is unpacked by
     # filedecompressor::decompress_to_ntf; the decoder-loop rules of C05 decide that the unpacked bytes
